@@ -823,6 +823,12 @@ class Interp:
             nm = d
         if name in TYPE_DIRECTED and c.get('args'):
             nm = '%s::<%s>' % (nm, c['args'][-1])
+        if name == 'new' and 'fmt::Arguments' in d and c.get('args'):
+            # format_args!: the const generics are (bytes of the encoded template, number of arguments); a template that is nothing but
+            # `{}` placeholders has one byte per argument plus the terminator
+            consts = [a for a in c['args'] if a.strip().isdigit()]
+            if len(consts) == 2:
+                nm = '%s::<%s,%s>' % (nm, consts[0].strip(), consts[1].strip())
         # calls through a mutable reference are not pure: each call instance gets its own term
         for a in t['args']:
             pl = op_place(a)
